@@ -801,6 +801,25 @@ def extra_order(repo):
     return mode
 
 
+def reader_loop(repo):
+    """'StopAtEof' if Digest::reader_sync / reader_sync_time_macros / reader go through `reader_sync_with`, whose loop
+    feeds every non-empty read to the digest and stops only on a read of 0 bytes; otherwise 'OtherLoop'."""
+    raw = read(repo, 'src/util.rs')
+    def body(pat, what):
+        t = norm(item_at(raw, pat, what))
+        bo = t.index('{')
+        return t[bo + 1:match_close(t, bo, '{', '}')]
+    ok = body(r'^    pub\s+fn\s+reader_sync\s*<', 'Digest::reader_sync') == 'Self::reader_sync_with(reader,|_|{}).map(|d|d.finish())'
+    w = body(r'^    pub\s+fn\s+reader_sync_with\s*<', 'Digest::reader_sync_with')
+    ok = ok and w == ('let mut m=Digest::new();let mut buffer=[0;HASH_BUFFER_SIZE];loop{let count=reader.read(&mut buffer[..])?;'
+                      'if count==0{break;}each(&buffer[..count]);m.update(&buffer[..count]);}Ok(m)')
+    tm = body(r'^    pub\s+fn\s+reader_sync_time_macros\s*<', 'Digest::reader_sync_time_macros')
+    ok = ok and 'Self::reader_sync_with(reader,|visit|finder.find_time_macros(visit))?.finish()' in tm
+    rd = body(r'^    pub\s+async\s+fn\s+reader\s*\(', 'Digest::reader')
+    ok = ok and 'Digest::reader_sync(reader)' in rd
+    return 'StopAtEof' if ok else 'OtherLoop'
+
+
 def input_path_mode(repo):
     """'AsGiven' if the path handed to preprocessor_cache_entry_hash_key is `cwd.join(input)` (or the input itself when
     absolute) and nothing else (no canonicalisation, no normalisation); otherwise 'OtherPath'."""
@@ -868,7 +887,8 @@ def read_spec(repo, fallback=None):
     if fallback.get('drivers') is not None and fallback.get('script_ids') is not None:
         spec['script_ids'] = fallback['script_ids']
     item('drivers', drivers, fallback.get('drivers'))
-    for name, f, bad in (('extra_order', extra_order, 'OtherOrder'), ('input_path_mode', input_path_mode, 'OtherPath')):
+    for name, f, bad in (('extra_order', extra_order, 'OtherOrder'), ('input_path_mode', input_path_mode, 'OtherPath'),
+                         ('reader_loop', reader_loop, 'OtherLoop')):
         try:
             spec[name] = f(repo)
         except Unrecognised as e:
@@ -955,6 +975,8 @@ def emit(spec, gen_dir):
     txt += 'Definition the_flow_p : list seg := [%s].\n' % '; '.join(spec['flow_p'])
     txt += '\n(* util::hash_all as used by generate_hash_key: is the i-th digest the digest of the i-th extra file? *)\n'
     txt += 'Definition the_extra_order : order_mode := %s.\n' % spec['extra_order']
+    txt += '\n(* util::Digest::reader_sync & co.: how the bytes of a reader are fed to the digest *)\n'
+    txt += 'Definition the_reader_loop : loop_mode := %s.\n' % spec['reader_loop']
     txt += '\n(* generate_hash_key: the input path handed to the preprocessor-level key *)\n'
     txt += 'Definition the_input_path_mode : path_mode := %s.\n' % spec['input_path_mode']
     txt += '\n(* c.rs generate_hash_key: the list the client environment is filtered by BEFORE it reaches the key functions *)\n'
@@ -1007,6 +1029,8 @@ Proof. vm_compute; reflexivity. Qed.
 
 (* the extra-file digests come in file order; the input path is hashed as it was given *)
 Lemma the_extra_order_ok : the_extra_order = InOrder.
+Proof. vm_compute; reflexivity. Qed.
+Lemma the_reader_loop_ok : the_reader_loop = StopAtEof.
 Proof. vm_compute; reflexivity. Qed.
 Lemma the_input_path_mode_ok : the_input_path_mode = AsGiven.
 Proof. vm_compute; reflexivity. Qed.
